@@ -29,12 +29,13 @@ Definition happly (o : hop) (r : repr) : cmd repr :=
   | HCloneDrop => r' <- make_shallow_clone r ;; _ <- replace_inner r' repr_new ;; Ret r
   end.
 
-Definition hpost : repr -> ghost -> Prop := fun r' g' => settled g' /\ holds g' r'.
+Definition hpost (g : ghost) (r : repr) : repr -> ghost -> Prop :=
+  fun r' g' => settled g' /\ holds g' r' /\ cons g r g' r'.
 
-Lemma ok_happly o r g : holds g r -> settled g -> okc (happly o r) g hpost.
+Lemma ok_happly o r g : holds g r -> settled g -> okc (happly o r) g (hpost g r).
 Proof.
   intros Hh Hs. unfold hpost. destruct o; cbn [happly].
-  - apply okc_bind. apply ok_as_bytes; [exact Hh|]. intros t. cbn [okc]. auto.
+  - apply okc_bind. apply ok_as_bytes; [exact Hh|]. intros t. cbn [okc]. split; [exact Hs|]. split; [exact Hh|apply cons_refl].
   - apply okc_bind. eapply okc_mono; [apply ok_push_str; assumption|]. intros p g' H. exact H.
   - apply okc_bind. eapply okc_mono; [apply ok_pop; assumption|]. intros p g' H. exact H.
   - apply okc_bind. eapply okc_mono; [apply ok_truncate; assumption|]. intros p g' H. exact H.
@@ -43,13 +44,15 @@ Proof.
   - apply okc_bind. eapply okc_mono; [apply ok_retain; assumption|]. intros p g' H. exact H.
   - apply ok_clear; assumption.
   - apply okc_bind. eapply okc_mono; [apply ok_shrink_to; assumption|]. intros p g' H. exact H.
-  - apply okc_bind. eapply okc_mono; [apply ok_reserve; assumption|]. intros p g' (S' & H' & _). cbn [okc]. auto.
+  - apply okc_bind. eapply okc_mono; [apply ok_reserve; assumption|]. intros p g' (S' & H' & _ & C'). cbn [okc]. auto.
   - apply okc_bind. eapply okc_mono; [apply ok_clone'; assumption|]. intros r' g1 (S1 & H1 & H1' & Hsim & Hcnt).
     apply okc_bind. eapply okc_mono; [apply ok_replace_inner; assumption|]. intros r'' g2 (_ & S2 & Hm). cbn [okc].
-    split; [exact S2|].
-    destruct r as [d|b l|s l]; cbn [holds]; auto.
-    destruct r' as [d'|b' l'|s' l']; cbn [sim] in Hsim; try contradiction. subst b'.
-    destruct Hm as (E & _). destruct Hh as (Hr & _). split; [lia|apply S2].
+    pose proof (released_refs _ _ _ H1' Hm) as Hrel.
+    assert (Hsame : forall x, g_refs g2 x = g_refs g x).
+    { intros x. specialize (Hrel x). rewrite Hcnt in Hrel. rewrite (nm_sim r r' x Hsim) in Hrel. lia. }
+    split; [exact S2|]. split.
+    + destruct r as [d|b l|s l]; cbn [holds]; auto. destruct Hh as (Hr & _). split; [rewrite Hsame; exact Hr|apply S2].
+    + intros x. rewrite Hsame. reflexivity.
 Qed.
 
 Fixpoint hrun (ops : list hop) (r : repr) : cmd unit :=
@@ -58,12 +61,16 @@ Fixpoint hrun (ops : list hop) (r : repr) : cmd unit :=
   | o :: rest => r' <- happly o r ;; hrun rest r'
   end.
 
-Lemma ok_hrun ops : forall r g (Q : unit -> ghost -> Prop),
-  holds g r -> settled g -> (forall g', Q tt g') -> okc (hrun ops r) g Q.
+(* a thread that holds exactly the handle r (and no other reference to b0) runs any sequence and ends holding nothing *)
+Lemma ok_hrun b0 ops : forall r g (Q : unit -> ghost -> Prop),
+  holds g r -> settled g -> g_refs g b0 = nm r b0 ->
+  (forall g', settled g' -> g_refs g' b0 = 0 -> Q tt g') -> okc (hrun ops r) g Q.
 Proof.
-  induction ops as [|o rest IH]; intros r g Q Hh Hs HQ; cbn [hrun].
-  - apply okc_bind. eapply okc_mono; [apply ok_replace_inner; assumption|]. intros r' g' _. cbn [okc]. apply HQ.
-  - apply okc_bind. eapply okc_mono; [apply ok_happly; assumption|]. intros r' g' (S' & H'). apply IH; assumption.
+  induction ops as [|o rest IH]; intros r g Q Hh Hs Hex HQ; cbn [hrun].
+  - apply okc_bind. eapply okc_mono; [apply ok_replace_inner; assumption|]. intros r' g' (_ & S' & Hm). cbn [okc].
+    apply HQ; [exact S'|]. pose proof (released_refs _ _ _ Hh Hm b0). lia.
+  - apply okc_bind. eapply okc_mono; [apply ok_happly; assumption|]. intros r' g' (S' & H' & C'). apply IH; try assumption.
+    specialize (C' b0). lia.
 Qed.
 
 (* n clones of the same handle *)
@@ -93,38 +100,43 @@ Proof.
   induction k as [|k IH]; intros g Q Hh Hs HQ; cbn [clone_n].
   - cbn [okc]. apply HQ; [exact Hs|lia].
   - apply okc_bind. eapply okc_mono; [apply ok_clone'; assumption|]. intros r' g1 (S1 & H1 & _ & _ & Hcnt).
-    apply IH; [exact H1|exact S1|]. intros g' S' E. apply HQ; [exact S'|]. unfold r0 in Hcnt. lia.
+    apply IH; [exact H1|exact S1|]. intros g' S' E. apply HQ; [exact S'|]. specialize (Hcnt b0). unfold r0 in Hcnt. cbn [nm] in Hcnt. rewrite Nat.eqb_refl in Hcnt. lia.
 Qed.
 
 Lemma settled_give g k : settled g -> settled (g_give b0 g k).
 Proof. intros H b. apply H. Qed.
 
-Lemma prog_ok_joins l g : prog_ok b0 kof (map PJoin l) g.
-Proof. induction l; cbn; auto. Qed.
+Lemma prog_ok_joins l g : g_refs g b0 = 0 -> g_free g b0 = false -> prog_ok b0 kof (map PJoin l) g.
+Proof. intros H1 H2. induction l; cbn; auto. Qed.
 
-Lemma prog_ok_spawns l : forall g rest,
-  settled g -> length l + 1 <= g_refs g b0 ->
-  (forall g', settled g' -> 1 <= g_refs g' b0 -> prog_ok b0 kof rest g') ->
+Lemma prog_ok_spawns l : forall g rest c,
+  settled g -> g_refs g b0 = length l + c ->
+  (forall g', settled g' -> g_refs g' b0 = c -> prog_ok b0 kof rest g') ->
   prog_ok b0 kof (map (fun i => PSpawn i 1) l ++ rest) g.
 Proof.
-  induction l as [|i l IH]; intros g rest Hs Hr HQ; cbn [map app prog_ok length] in *.
+  induction l as [|i l IH]; intros g rest c Hs Hr HQ; cbn [map app prog_ok length] in *.
   - apply HQ; [exact Hs|lia].
-  - split; [lia|]. split; [reflexivity|]. apply IH.
+  - split; [lia|]. split; [reflexivity|]. apply (IH _ _ c).
     + apply settled_give. exact Hs.
     + unfold g_give. cbn [g_refs]. unfold setf. rewrite Nat.eqb_refl. lia.
     + exact HQ.
 Qed.
 
-Lemma child_ghost_ok : holds (g_child b0 1) r0 /\ settled (g_child b0 1).
-Proof. split; [|intros b; reflexivity]. unfold r0. cbn [holds g_child g_refs g_free]. rewrite Nat.eqb_refl. auto. Qed.
+Lemma child_ghost_ok : holds (g_child b0 1) r0 /\ settled (g_child b0 1) /\ g_refs (g_child b0 1) b0 = nm r0 b0.
+Proof.
+  split; [|split; [intros b; reflexivity|]]; unfold r0; cbn [holds g_child g_refs g_free nm]; rewrite Nat.eqb_refl; auto.
+Qed.
 
 Lemma prog0_ok : prog_ok b0 kof prog0 (g_child b0 1).
 Proof.
-  destruct child_ghost_ok as (Hh & Hs). unfold prog0. cbn [prog_ok].
+  destruct child_ghost_ok as (Hh & Hs & Hex). unfold prog0. cbn [prog_ok].
   apply ok_clone_n; [exact Hh|exact Hs|]. intros g1 S1 E1.
-  apply prog_ok_spawns; [exact S1|rewrite seq_length; rewrite E1; cbn [g_child g_refs]; rewrite Nat.eqb_refl; lia|].
-  intros g2 S2 R2. cbn [prog_ok]. apply ok_hrun; [unfold r0; cbn [holds]; split; [lia|apply S2]|exact S2|].
-  intros g3. apply prog_ok_joins.
+  apply (prog_ok_spawns _ _ _ 1); [exact S1|rewrite seq_length; rewrite E1; cbn [g_child g_refs]; rewrite Nat.eqb_refl; lia|].
+  intros g2 S2 R2. cbn [prog_ok]. apply (ok_hrun b0).
+  - unfold r0; cbn [holds]; split; [lia|apply S2].
+  - exact S2.
+  - unfold r0. cbn [nm]. rewrite Nat.eqb_refl. exact R2.
+  - intros g3 S3 R3. apply prog_ok_joins; [exact R3|apply S3].
 Qed.
 
 Lemma nth_tc0 t : t < S n ->
@@ -152,7 +164,8 @@ Proof.
     pose proof (T_init n t) as E. unfold T in E. rewrite E in Hst.
     destruct t as [|t]; cbn [Nat.eqb] in *; [cbn in Hst; discriminate|].
     split; [reflexivity|]. split; [reflexivity|]. unfold child_prog. cbn [prog_ok].
-    destruct child_ghost_ok as (Hh & Hs). apply ok_hrun; auto.
+    destruct child_ghost_ok as (Hh & Hs & Hex). apply (ok_hrun b0); [exact Hh|exact Hs|exact Hex|].
+    intros g' S' R'. cbn [prog_ok]. split; [exact R'|apply S'].
 Qed.
 
 (* every reachable configuration: well typed (so every thread's next event is enabled, Compose.typed_progress), and no
@@ -162,5 +175,14 @@ Theorem shared_handles_safe cf : csteps b0 cfg0 cf ->
 Proof.
   intros Hs. split; [exact (typed_steps b0 kof _ _ shared_handles_typed Hs)|].
   intros t a e. exact (typed_safe b0 kof _ _ t a e shared_handles_typed Hs).
+Qed.
+(* and when every started thread has run to completion the buffer is gone: released exactly once (a second release
+   would be a DoubleFree step, excluded above), after the last access (any later access would be a use after free) *)
+Theorem shared_handles_released cf : csteps b0 cfg0 cf ->
+  (forall t, t < length (tc cf) -> started (getth (ms cf) t) = true -> finished (gettc b0 cf t)) ->
+  Mach.live (ms cf) = false.
+Proof.
+  intros Hs Hfin. apply (all_finished_released b0 kof cf); [|exact Hfin].
+  exact (typed_steps b0 kof _ _ shared_handles_typed Hs).
 Qed.
 End System.
